@@ -196,6 +196,12 @@ func ProcessBulk(ctx context.Context, l backend.Ledger, bulk Bulk, continueOnFai
 					ResponseType: element.Action,
 				})
 			}
+		default:
+			// every element gets an answer at its own position, also one we cannot execute
+			bulkError(element.Action, ErrValidation, fmt.Errorf("unknown action %q", element.Action))
+			if !continueOnFailure {
+				return ret, errorsInBulk, nil
+			}
 		}
 	}
 	return ret, errorsInBulk, nil
